@@ -54,7 +54,17 @@ def _make_pair(em, rd, call, args, obj):
     return '((%s){ %s, %s })' % (em.cdecl(em._strip_top_quals(t)), em.E(args[0]), em.E(args[1]))
 
 
+def _uncaught(em, rd, call, args, obj):
+    # std::uncaught_exceptions(): whether an exception is in flight is not known to a function contract -> arbitrary
+    if obj is None and not args:
+        em.lowerings['M-exc(std::uncaught_exceptions -> arbitrary value)'] += 1
+        return 'vstd_uncaught_exceptions()'
+    return None
+
+
 MODELS = {
+    'uncaught_exceptions': _uncaught,
+    'uncaught_exception': _uncaught,
     'make_pair': _make_pair,
     'find': _find,
     'min': _limits('min'),
